@@ -141,7 +141,8 @@ def compare_structure(region, rec, loaded, full_seq, region_seq):
         fails.append(("protocluster-numbers", ""))
 
     def cand_desc(c, seq):
-        return (str(c.kind), str(c.location.extract(seq)), tuple(sorted(proto_desc(p, seq) for p in c.protoclusters)))
+        return (str(c.kind), str(c.location.extract(seq)), tuple(sorted(proto_desc(p, seq) for p in c.protoclusters)),
+                c.smiles_structure, c.polymer)
     old_cands = sorted(cand_desc(c, full_seq) for c in region.candidate_clusters)
     new_cands = sorted(cand_desc(c, region_seq) for c in loaded.get_candidate_clusters())
     if old_cands != new_cands:
